@@ -3,7 +3,7 @@ import ast
 import re
 
 from ..core import AnalysisError, src, qualname_of, closure_walk, enclosing_function
-from ..pysym import SymExec, show, subterms, str_parts, argof, guards_of, own_params, self_call_pred, all_calls
+from ..pysym import SymExec, show, subterms, str_parts, argof, guards_of, own_params, self_call_pred, all_calls, terms_of
 from ..rules_pyx import N, C, A
 from .. import codec
 from .. import logic
@@ -791,6 +791,145 @@ def r_token_names(repo, rep, R='R15.5'):
               'the name reaches the templates with its punctuation and without the underscore' % sorted(set(bad)))
 
 
+def r_extension_dispatch(repo, rep, R='R15.7'):
+    """what depccg writes as <name>.jigg.xml is read back by the Jigg reader, <name>.xml by the C&C reader: the dispatch on
+    the file name reaches each reader for its own extension.  Two spellings are known: a chain of `endswith` tests (the
+    longer suffix tested first) and a table keyed by os.path.splitext, whose keys can only be one-dot suffixes."""
+    rm = repo.module(RD)
+    fn = rm.get('read_trees_guess_extension')
+    w = '%s:%s %s' % (RD, fn.lineno, fn.name)
+    p = fn.args.args[0].arg
+    reached = {}
+    split_keys = set()
+    uses_split = False
+    for st, o in SymExec(fn, unroll=1).run():
+        conds = [(c, pol) for c, pol, _ in st.conds]
+        for t0 in terms_of(st):
+            for x in subterms(t0):
+                if x[0] == 'call' and x[1][0] == 'attr' and x[1][2] in ('splitext',):
+                    uses_split = True
+                if x[0] == 'cmp' and x[1] == '==' and any(y[0] == 'call' and y[1][0] == 'attr' and y[1][2] == 'splitext' for z in x[2:] for y in subterms(z)):
+                    for z in x[2:]:
+                        if z[0] == 'const' and isinstance(z[1], str):
+                            split_keys.add(z[1])
+        for c in all_calls(st):
+            f = c[1]
+            nm = f[1] if f[0] == 'name' else (f[1] if f[0] == 'func' else None)
+            if isinstance(nm, str) and nm.startswith('read_') and c[2] and c[2][0] == N(p):
+                ends = {}
+                for cnd, pol in conds:
+                    if cnd[0] == 'call' and cnd[1] == A(N(p), 'endswith') and len(cnd[2]) == 1 and cnd[2][0][0] == 'const':
+                        ends[cnd[2][0][1]] = pol
+                reached.setdefault(nm, []).append(ends)
+    if uses_split:
+        # keys of the table: constants of the module-level dictionary the suffix is looked up in
+        for n_ in ast.walk(rm.tree):
+            if isinstance(n_, ast.Dict) and n_.keys and all(isinstance(k, ast.Constant) and isinstance(k.value, str) and k.value.startswith('.') for k in n_.keys if k is not None):
+                split_keys |= {k.value for k in n_.keys if k is not None}
+        dead = sorted(k for k in split_keys if k.count('.') != 1)
+        rep.check(not dead and '.xml' in split_keys, R, w, 'reader:extension-dispatch',
+                  'the reader is chosen by the last suffix of the file name; every key of the table is such a suffix (%s)' % sorted(split_keys),
+                  'the reader table is keyed by os.path.splitext, which only yields the last suffix: the entries %s can never be chosen (such files go to the reader of %r)'
+                  % (dead, '.' + dead[0].split('.')[-1] if dead else '?'))
+        return
+    jigg = reached.get('read_jigg_xml', [])
+    candc = reached.get('read_xml', [])
+    if not jigg or not candc:
+        raise AnalysisError('%s: %s does not reach read_jigg_xml and read_xml by tests on the file name that are read here (endswith / splitext)' % (RD, fn.name))
+    ok = all(e.get('.jigg.xml') is True for e in jigg) and all(e.get('.xml') is True and e.get('.jigg.xml') is False for e in candc)
+    rep.check(ok, R, w, 'reader:extension-dispatch', 'a *.jigg.xml file is read as Jigg XML, any other *.xml file as C&C XML (the longer suffix is tested first)',
+              'the dispatch on the file name sends *.jigg.xml files to the wrong reader: read_jigg_xml under %s, read_xml under %s' % (jigg, candc))
+
+
+def r_jigg_category(repo, rep, R='R15.8'):
+    """Jigg spells a one-valued feature as an attribute-value pair: S[dcl] -> S[dcl=true].  Whether the writer walks the
+    category or rewrites its text, every feature of the English inventories (lower case, upper case X, digits) is covered."""
+    jm = repo.module(JX)
+    fn = jm.get('_cat_multi_valued')
+    w = '%s:%s %s' % (JX, fn.lineno, fn.name)
+    subs = [c for c in ast.walk(fn) if isinstance(c, ast.Call) and isinstance(c.func, ast.Attribute) and c.func.attr == 'sub']
+    if subs:
+        import re._parser as sre
+        import re._constants as K
+        from .c07 import _sre_accepts
+        from .. import datafiles as df
+        c = subs[0]
+        if isinstance(c.func.value, ast.Name) and c.func.value.id == 're':
+            pv = jm.literal(c.args[0]) if c.args else None
+        else:
+            v = jm.literal(c.func.value)
+            pv = jm.literal(v.args[0]) if isinstance(v, ast.Call) and src(v.func) in ('re.compile', 'compile') and v.args else None
+        if not (isinstance(pv, ast.Constant) and isinstance(pv.value, str)):
+            raise AnalysisError('%s: the pattern of %s was not found' % (JX, fn.name))
+        alphabet = set()
+        for cfg in ('config_en', 'config_rebank'):
+            v = df.load_jsonnet(repo, 'depccg/models/%s.jsonnet' % cfg)
+            texts = list(v.get('targets', [])) + [x for pr in v.get('unary_rules', []) for x in pr]
+            for t in texts:
+                depth = 0
+                for ch in t:
+                    if ch == '[':
+                        depth += 1
+                    elif ch == ']':
+                        depth -= 1
+                    elif depth > 0:
+                        alphabet.add(ch)
+        tree = sre.parse(pv.value)
+        items = list(tree)
+        ok, detail = False, 'the pattern is not "[" feature "]"'
+        flat = []
+        for op, arg in items:
+            if op == K.SUBPATTERN:
+                flat.extend(arg[3])
+            else:
+                flat.append((op, arg))
+        if len(flat) == 3 and flat[0] == (K.LITERAL, ord('[')) and flat[2] == (K.LITERAL, ord(']')) and flat[1][0] in (K.MAX_REPEAT, K.MIN_REPEAT) \
+                and len(flat[1][1][2]) == 1:
+            refused = sorted(ch for ch in alphabet if not _sre_accepts(flat[1][1][2][0], ch))
+            ok = not refused and flat[1][1][1] == K.MAXREPEAT
+            detail = 'accepts all %d feature characters of the English inventories' % len(alphabet) if ok else 'refuses %s' % refused
+        rep.check(ok, R, w, 'jigg:category-spelling', 'one-valued features are rewritten to [f=true] wherever they occur (%s)' % detail,
+                  'some English features are not rewritten to the attribute-value spelling Jigg / ccg2lambda read: the pattern %r %s' % (pv.value, detail))
+        return
+    # the structural form: an atom with a one-valued feature that is set prints base[feature=true]
+    found = False
+    for f_ in [fn] + [n_ for n_ in ast.walk(fn) if isinstance(n_, ast.FunctionDef) and n_ is not fn]:
+        for st, o in SymExec(f_, unroll=1).run():
+            if o != 'return' or st.ret is None:
+                continue
+            ps_ = str_parts(st.ret) or []
+            if len(ps_) == 4 and ps_[1] == '[' and ps_[3] == '=true]' and not isinstance(ps_[0], str) and not isinstance(ps_[2], str) \
+                    and ps_[0][0] == 'attr' and ps_[0][2] == 'base' and ps_[2] == ('attr', ps_[0][1], 'feature'):
+                found = True
+    rep.check(found, R, w, 'jigg:category-spelling', 'an atom with a one-valued feature is written base[feature=true]',
+              'no path of %s writes a one-valued feature as base[feature=true]' % fn.name)
+
+
+def r_normalise_on_copy(repo, rep, R='R15.9'):
+    """normalize_tokens rewrites the attributes of the token elements it is given; the caller hands it a private copy, so the
+    document that is serialised afterwards (jigg_xml_ccg2lambda) still carries the words as they were read."""
+    cm = repo.module(CT)
+    nt = cm.get('normalize_tokens')
+    mut = any(isinstance(c, ast.Call) and isinstance(c.func, ast.Attribute) and c.func.attr == 'set' for c in ast.walk(nt))
+    n = 0
+    for fn in cm.functions():
+        for c in ast.walk(fn):
+            if isinstance(c, ast.Call) and isinstance(c.func, ast.Name) and c.func.id == 'normalize_tokens' and c.args:
+                n += 1
+                w = '%s:%s %s' % (CT, c.lineno, fn.name)
+                a = c.args[0]
+                fresh = lambda e: isinstance(e, ast.Call) and src(e.func) in ('copy.deepcopy', 'deepcopy')
+                ok = fresh(a)
+                if not ok and isinstance(a, ast.Name):
+                    binds = [s_ for s_ in ast.walk(fn) if isinstance(s_, ast.Assign) and any(isinstance(t, ast.Name) and t.id == a.id for t in s_.targets)
+                             and s_.lineno < c.lineno]
+                    ok = bool(binds) and fresh(binds[-1].value)
+                rep.check(ok or not mut, R, w, 'normalize_tokens:on-copy:%s' % fn.name,
+                          'the tokens handed to normalize_tokens are a deep copy of the document\'s token elements',
+                          'normalize_tokens rewrites base / surf in place and is given %s, a part of the document itself: the words of the serialised document change' % src(a)[:60])
+    rep.floor('normalize_tokens call sites', n, 1)
+
+
 def check(repo, rep, tier):
     from ..lints import r_import_time_language
     r_import_time_language(repo, rep, 'R15.4', repo.py_files('depccg/printer') + [RD])
@@ -812,4 +951,10 @@ def check(repo, rep, tier):
     rep.ok('R15.6', '%s, %s' % (SI, CT), 'no function of the tree builder modules writes to one of their %d module-level objects' % n_obj)
     rep.rule('R15.5', 'token names for ccg2lambda: normalize_token replaces all logic punctuation and prefixes "_"; normalize_tokens leaves nothing it wrote un-normalised')
     r_token_names(repo, rep)
+    rep.rule('R15.7', 'what is written as *.jigg.xml / *.xml is read back by the matching reader (dispatch on the file name)')
+    r_extension_dispatch(repo, rep)
+    rep.rule('R15.8', 'Jigg category spelling: every one-valued feature becomes [f=true]')
+    r_jigg_category(repo, rep)
+    rep.rule('R15.9', 'token normalisation for ccg2lambda works on a copy of the token elements')
+    r_normalise_on_copy(repo, rep)
     rep.floor('to_jigg_xml call sites in to_string', n, 3)
